@@ -227,7 +227,16 @@ pub(crate) mod vk {
     impl<const N: usize> Write for Sink<N> {
         fn write(&mut self, b: &[u8]) -> Result<usize> {
             assert!(self.len + b.len() <= N, "verif sink capacity exceeded");
-            self.buf[self.len..self.len + b.len()].copy_from_slice(b);
+            if N <= 64 {
+                // small sinks: byte loop (write lengths may be symbolic; a symbolic-size memcpy exhausts CBMC's memory)
+                let mut i = 0;
+                while i < b.len() {
+                    self.buf[self.len + i] = b[i];
+                    i += 1;
+                }
+            } else {
+                self.buf[self.len..self.len + b.len()].copy_from_slice(b);
+            }
             self.len += b.len();
             Ok(b.len())
         }
